@@ -32,10 +32,13 @@ func gen(seed uint64, tier string) []interface{} {
 		case q < 17:
 			c = trig.GenShadow(r.Fork(), id, tier)
 		case q < 18:
-			if r.Bool() {
+			switch r.Intn(3) {
+			case 0:
 				c = trig.GenGrow(r.Fork(), id, tier)
-			} else {
+			case 1:
 				c = trig.GenDrift(r.Fork(), id, tier)
+			default:
+				c = trig.GenTailReconf(r.Fork(), id, tier)
 			}
 		default:
 			c = trig.GenMalformed(r.Fork(), id, tier)
